@@ -15,11 +15,14 @@ def Ty.WF (cfg : Cfg) (t : Ty) : Prop :=
   | .struct ms => (ms.map (·.1)).Nodup ∧ ∀ m, ∀ (_ : m ∈ ms), Ty.WF cfg m.2.2
   | .variant ts => ∀ t', ∀ (_ : t' ∈ ts), Ty.WF cfg t'
   | .optional t' | .notUndef t' | .typ t' | .sensitive t' | .iterator t' | .iterable t' => Ty.WF cfg t'
+  | .callable p r k =>
+      (match p with | none => True | some t' => Ty.WF cfg t') ∧ (match r with | none => True | some t' => Ty.WF cfg t') ∧
+      (match k with | none => True | some t' => Ty.WF cfg t')
   | _ => True
 termination_by t.w
 decreasing_by
   all_goals simp_wf
-  all_goals (try simp only [Ty.w, Ty.wl, Ty.wm] at *)
+  all_goals (try simp only [Ty.w, Ty.wl, Ty.wm, Ty.wo] at *)
   all_goals first
     | omega
     | (have := Ty.w_lt_wl ‹_ ∈ _›; omega)
